@@ -2,7 +2,8 @@
 Model/Lifecycle — the session lifecycle machine and the peer's session index, as coded in
 session.go (status constants, changeStatus / tryChangeStatus / checkStatus, Health, notifyClosed,
 SetID, Close / closeLocked, readDisconnected, redialForClient without a redial function,
-startReadAndHandle's loop condition, write's status check, SessionHub set / get / delete / len)
+startReadAndHandle's read loop (loop condition, blocking read, post-read status check, handler
+start), write's status check, SessionHub set / get / delete / len)
 and peer.go (ServeConn, the accept closure of serveListener, Peer.Close, GetSession / CountSession /
 RangeSession). Sessions without a redial function only (ServeConn / listener sessions and dialled
 sessions with RedialTimes = 0): `redialForClient` returns false at once.
@@ -11,7 +12,10 @@ Layers, all core Lean and executable:
   1. decision functions (`goonRead`, `health`, `write`);
   2. `Core` + `lstep`: ONE session's lifecycle as an interleaving transition system — the
      lock-serialised closer thread, the accept path's compare-and-swap Preparing → Ok (a session
-     closed while its hooks run is not revived), the reader thread with its disconnect path (the status LOAD and
+     closed while its hooks run is not revived), the reader thread with its read loop (the loop
+     condition `for s.goonRead()` BEFORE the blocking `ReadMessage`, the frame arrival, the second
+     `goonRead` test AFTER it and the handler start are four steps: `rdTop`, `rdMsg`, `rdChk`, `rdAdd`;
+     `lstepV false` is the loop without the second test) and its disconnect path (the status LOAD and
      the status compare-and-swap of `readDisconnected` are two steps, the captured value is `rst`;
      a failed compare-and-swap goes back to the load), the accept
      phases, the environment (remote close / cut, any goroutine calling `Close()` at any time);
@@ -88,11 +92,13 @@ deriving DecidableEq, Repr
 inductive CPc | idle | hubdel | notify | callwait | store | sock | hook
 deriving DecidableEq, Repr
 
-/-- reader goroutine: not started / in the read loop / in `readDisconnected` before the status
-    load / after the load (switch and compare-and-swap pending) / before `sessHub.delete` / before
+/-- reader goroutine: not started / at the top of the read loop (before the loop condition) /
+    blocked in `ReadMessage` / `ReadMessage` has returned a frame (gate `read.msg`, before the
+    post-read status check) / the check passed (gate `read.add`, before `graceCtxWaitGroup.Add(1)`
+    and the handler spawn) / in `readDisconnected` before the status load / after the load (switch and compare-and-swap pending) / before `sessHub.delete` / before
     `socket.Close` / before the `PassiveClosed` store / before `notifyClosed` / before the
     disconnect hook / returned. -/
-inductive RPc | idle | loop | disc0 | loaded | hubdel | sock | closed | notify | hook | done
+inductive RPc | idle | loop | reading | got | add | disc0 | loaded | hubdel | sock | closed | notify | hook | done
 deriving DecidableEq, Repr
 
 structure Core where
@@ -108,11 +114,14 @@ structure Core where
   eof : Bool               -- environment: remote end closed / connection cut
   handlers : Nat           -- handler goroutines started by the read loop
   left : Bool              -- ghost: a store replaced ActiveClosed / PassiveClosed by another status
+  late : Bool              -- ghost: the frame in the reader's hands arrived (`ReadMessage` returned)
+                           --   when the status was already ActiveClosed / PassiveClosed
+  lateH : Nat              -- ghost: handlers started for such frames
 deriving DecidableEq, Repr
 
 /-- `newSession`: `status: statusPreparing`. -/
 def Core.init : Core :=
-  ⟨.hooks, .preparing, .idle, .idle, .preparing, false, 0, 0, false, false, 0, false⟩
+  ⟨.hooks, .preparing, .idle, .idle, .preparing, false, 0, 0, false, false, 0, false, false, 0⟩
 
 /-- the accept / dial hooks have succeeded. -/
 def Core.est (c : Core) : Bool :=
@@ -139,13 +148,18 @@ inductive LEv
   | closeCall             -- some goroutine calls `Close()`: takes the lock, `tryChangeStatus`
   | cHubDel | cNotify | cCallWait | cStore | cSock | cHook   -- rest of `closeLocked`
   | eof                   -- environment: the remote end closes / the connection is cut
-  | rdMsg                 -- a frame arrives: `ReadMessage` returns, `goonRead` check, handler spawn
-  | rdExit                -- the read loop ends (read error or `goonRead` false)
+  | rdTop                 -- the loop condition `for s.goonRead()`: into `ReadMessage`, or leave the loop
+  | rdMsg                 -- a complete frame arrives: the blocking `ReadMessage` returns it  [read.msg]
+  | rdChk                 -- the post-read test `… || !s.goonRead()`: go on, or drop the frame and leave  [read.add]
+  | rdAdd                 -- `graceCtxWaitGroup.Add(1)`, `Go(ctx.handle)`; back to the top of the loop
+  | rdExit                -- `ReadMessage` fails (socket closed locally / remote end gone): leave the loop
   | dLoad | dStore | dHubDel | dSock | dClosed | dNotify | dHook  -- `readDisconnected`
 deriving DecidableEq, Repr
 
-/-- one atomic step; `none` = not enabled. -/
-def lstep (c : Core) : LEv → Option Core
+/-- one atomic step; `none` = not enabled. `recheck` = the read loop tests `goonRead` a second
+    time after `ReadMessage` has returned (`true`: the loop as coded; `false`: the variant that
+    relies on the loop condition alone). -/
+def lstepV (recheck : Bool) (c : Core) : LEv → Option Core
   | .hookOk => if c.ph = .hooks then some { c with ph := .accepted } else none
   | .hookReject => if c.ph = .hooks then some { c with ph := .rejected } else none
   | .storeOk =>
@@ -166,13 +180,24 @@ def lstep (c : Core) : LEv → Option Core
   | .cSock => if c.closer = .sock then some { c with sockClosed := true, closer := .hook } else none
   | .cHook => if c.closer = .hook then some { c with discCnt := c.discCnt + 1, closer := .idle } else none
   | .eof => some { c with eof := true }
-  | .rdMsg =>
+  | .rdTop =>
     if c.reader = .loop then
-      if goonRead c.st then some { c with handlers := c.handlers + 1 }
-      else some { c with reader := .disc0 }
+      if goonRead c.st then some { c with reader := .reading } else some { c with reader := .disc0 }
+    else none
+  | .rdMsg =>
+    -- the environment delivers a frame while the connection is still open on this side
+    if c.reader = .reading ∧ c.sockClosed = false then some { c with reader := .got, late := c.st.isClosed }
+    else none
+  | .rdChk =>
+    if c.reader = .got then
+      if recheck && !goonRead c.st then some { c with reader := .disc0 } else some { c with reader := .add }
+    else none
+  | .rdAdd =>
+    if c.reader = .add then
+      some { c with handlers := c.handlers + 1, lateH := c.lateH + (if c.late then 1 else 0), reader := .loop }
     else none
   | .rdExit =>
-    if c.reader = .loop ∧ (c.sockClosed ∨ c.eof ∨ goonRead c.st = false) then some { c with reader := .disc0 }
+    if c.reader = .reading ∧ (c.sockClosed ∨ c.eof) then some { c with reader := .disc0 }
     else none
   | .dLoad => if c.reader = .disc0 then some { c with rst := c.st, reader := .loaded } else none
   | .dStore =>
@@ -195,14 +220,28 @@ def lstep (c : Core) : LEv → Option Core
   | .dNotify => if c.reader = .notify then some { c.notify with reader := .hook } else none
   | .dHook => if c.reader = .hook then some { c with discCnt := c.discCnt + 1, reader := .done } else none
 
+/-- the session as coded: with the second `goonRead` test. -/
+@[reducible] def lstep (c : Core) (e : LEv) : Option Core := lstepV true c e
+
 /-- closure of `lstep`: every schedule of one session's threads and its environment. -/
 inductive LReach : Core → Core → Prop
   | refl (c : Core) : LReach c c
   | step {a b c : Core} (e : LEv) : LReach a b → lstep b e = some c → LReach a c
 
-/-- no thread of the session has a pending step (quiescent point). -/
+/-- the same closure for either variant of the read loop. -/
+inductive LReachV (recheck : Bool) : Core → Core → Prop
+  | refl (c : Core) : LReachV recheck c c
+  | step {a b c : Core} (e : LEv) : LReachV recheck a b → lstepV recheck b e = some c → LReachV recheck a c
+
+/-- run a list of steps of one session (`none` when one of them is not enabled). -/
+def lrunV (recheck : Bool) : Core → List LEv → Option Core
+  | c, [] => some c
+  | c, e :: es => (lstepV recheck c e).bind fun c' => lrunV recheck c' es
+
+/-- no thread of the session has a pending step (quiescent point): the reader, if started, is
+    blocked in `ReadMessage` or has returned. -/
 def Core.quiet (c : Core) : Bool :=
-  c.closer = .idle && (c.reader = .idle || c.reader = .loop || c.reader = .done)
+  c.closer = .idle && (c.reader = .idle || c.reader = .reading || c.reader = .done)
 
 /-! ## 3. the index and the world -/
 
@@ -457,7 +496,10 @@ def candidates (w : World) (readers : Bool) : List Ev :=
           | some p => if p.core.sockClosed && !s.core.eof then [Ev.l i .eof] else []
           | none => []) ++
         (match s.core.reader with
-          | .loop => [Ev.l i .rdExit]
+          | .loop => [Ev.l i .rdTop]
+          | .reading => [Ev.l i .rdExit]
+          | .got => [Ev.l i .rdChk]
+          | .add => [Ev.l i .rdAdd]
           | .disc0 => [Ev.l i .dLoad]
           | .loaded => [Ev.l i .dStore]
           | .hubdel => [Ev.l i .dHubDel]
@@ -544,13 +586,16 @@ def World.opPeerClose (w : World) (peer : Nat) : World :=
   let w1 := runSkip w (targets.map fun i => .l i .closeCall)
   settle (fuelOf w1) w1
 
+/-- the reader of session `j` receives one frame and is back in `ReadMessage` (or has left the loop). -/
+def frameSteps (j : Nat) : List Ev := [.l j .rdMsg, .l j .rdChk, .l j .rdAdd, .l j .rdTop]
+
 /-- a CALL or PUSH from session `i`: class of the returned status (`0` ok / `102` connection
     closed) and the frames handled on both sides. -/
 def World.opSend (w : World) (i : Nat) (isCall : Bool) : World × Nat :=
   match w.sess[i]? with
   | some s =>
     if (write s.core.st false false .fine).1 = .ok then
-      (runSkip w ([.l s.partner .rdMsg] ++ if isCall then [.l i .rdMsg] else []), 0)
+      (runSkip w (frameSteps s.partner ++ if isCall then frameSteps i else []), 0)
     else (w, 102)
   | none => (w, 102)
 
